@@ -1,8 +1,98 @@
+/-
+  C03 — line-protocol ops for the legacy signature hash.
+
+    c03.raw        script tx idx ht     Model.rawSignatureHash      → digest-hex | one:err | <hex>:err | err:<family>
+    c03.spec.raw   script tx idx ht     Spec.legacySighash (ht ≥ 0) → same rendering
+    c03.wrapper    script tx idx ht     Model.signatureHashBase     → digest-hex | err:<family>
+    c03.fad        script sig           Model.findAndDelete         → hex | err:<family>
+    c03.spec.strip script               Spec.scriptCodeNoSep        → hex
+    c03.spec.ops   script               Spec.ops                    → hex,hex,… | noparse
+    c03.iswit      script               Model.isWitnessScriptPubKey → true | false | err:<family>
+    c03.hist       script q1 q2 …       one history on one line: each q = algo@tx@idx@ht@amount with
+                                        algo ∈ raw | wrap | v0 (amount `-` for raw/wrap); the existing models
+                                        evaluated on each successive transaction value → r1,r2,…
+-/
 import Driver.Util
+import Driver.TxFmt
+import BtcVerif.Model.Sighash
+import BtcVerif.Spec.Sighash
 
 namespace Driver.C03
 open BtcVerif Driver
 
-def handle (_op : String) (_args : List String) : Option String := none
+def renderRaw (d : Bytes) (err : Bool) : String :=
+  if err then (if d = Model.Sighash.HASH_ONE then "one:err" else toHex d ++ ":err") else toHex d
+
+/-- one query of a history: the model of the named entry point on the given (current) transaction value -/
+def histQuery (sc : Bytes) (q : String) : Option String :=
+  match q.splitOn "@" with
+  | [algo, tx, idx, ht, am] => do
+      let tx ← TxFmt.parseTx? tx
+      let idx ← parseNat? idx
+      let ht ← parseInt? ht
+      if algo == "raw" then
+        pure (match Model.Sighash.rawSignatureHash sc tx idx ht with
+              | .ok (d, e) => renderRaw d e
+              | .error e => "err:" ++ e.family)
+      else if algo == "wrap" then
+        pure (Res.render ((Model.Sighash.signatureHashBase sc tx idx ht).map toHex))
+      else if algo == "v0" then do
+        let am ← if am == "none" then some none else (parseInt? am).map some
+        pure (Res.render ((Model.Sighash.signatureHashWitnessV0 sc tx idx ht am).map toHex))
+      else none
+  | _ => none
+
+def histReply (args : List String) : String :=
+  match args with
+  | sc :: qs =>
+      (match parseHex? sc with
+       | some sc =>
+           (match qs.mapM (histQuery sc) with
+            | some rs => joinWith "," rs
+            | none => badArgs)
+       | none => badArgs)
+  | [] => badArgs
+
+def handle (op : String) (args : List String) : Option String :=
+  match op, args with
+  | "c03.raw", [sc, tx, idx, ht] => some <|
+      match parseHex? sc, TxFmt.parseTx? tx, parseNat? idx, parseInt? ht with
+      | some sc, some tx, some idx, some ht =>
+          (match Model.Sighash.rawSignatureHash sc tx idx ht with
+           | .ok (d, e) => renderRaw d e
+           | .error e => "err:" ++ e.family)
+      | _, _, _, _ => badArgs
+  | "c03.spec.raw", [sc, tx, idx, ht] => some <|
+      match parseHex? sc, TxFmt.parseTx? tx, parseNat? idx, parseNat? ht with
+      | some sc, some tx, some idx, some ht =>
+          let (d, e) := Spec.Sighash.legacySighash sc tx idx ht
+          if e then (if d = Spec.Sighash.hashOne then "one:err" else toHex d ++ ":err") else toHex d
+      | _, _, _, _ => badArgs
+  | "c03.wrapper", [sc, tx, idx, ht] => some <|
+      match parseHex? sc, TxFmt.parseTx? tx, parseNat? idx, parseInt? ht with
+      | some sc, some tx, some idx, some ht =>
+          Res.render ((Model.Sighash.signatureHashBase sc tx idx ht).map toHex)
+      | _, _, _, _ => badArgs
+  | "c03.fad", [sc, sig] => some <|
+      match parseHex? sc, parseHex? sig with
+      | some sc, some sig => Res.render ((Model.Sighash.findAndDelete sc sig).map toHex)
+      | _, _ => badArgs
+  | "c03.spec.strip", [sc] => some <|
+      match parseHex? sc with
+      | some sc => toHex (Spec.Sighash.scriptCodeNoSep sc)
+      | none => badArgs
+  | "c03.spec.ops", [sc] => some <|
+      match parseHex? sc with
+      | some sc =>
+          (match Spec.Sighash.ops sc with
+           | some l => joinWith "," (l.map toHex)
+           | none => "noparse")
+      | none => badArgs
+  | "c03.hist", args => some (histReply args)
+  | "c03.iswit", [sc] => some <|
+      match parseHex? sc with
+      | some sc => Res.render ((Model.Sighash.isWitnessScriptPubKey sc).map toString)
+      | none => badArgs
+  | _, _ => none
 
 end Driver.C03
